@@ -956,3 +956,46 @@ class C09(core.Property):
 
 
 PROPERTY = C09
+
+
+# ---------------------------------------------------------------------------------------------
+# Second tie for "shutdown closes the door; exit reports whether it was closed" (appended;
+# harness/gen_ast_shutdown.py on top of harness/gen_ast.py, coq/Base/PyMini.v, Proofs/AstShutdownEquiv.v): the
+# SOURCE TEXT of LanguageServerProtocol.lsp_shutdown and lsp_exit is translated on every run by the fail-closed
+# AST translator into a deep embedding, and the kernel re-checks, for ALL states, that lsp_shutdown records one
+# cancel per entry of the snapshot of the in-flight table (table order), sets _shutdown and touches nothing else,
+# and that lsp_exit closes the writer exactly when there is one and hands sys.exit (directly or through the done
+# callback of an awaitable close) the status 0 iff _shutdown was true, else 1; both are related to
+# Model/Endpoint.v's lsp_shutdown / lsp_exit.  inspect.isawaitable is an oracle of the exit theorem.
+# Imported late ("Module::theorem") so that a broken translator tie does not hide the other obligations.
+import gen_ast_shutdown as _gen_ast_shutdown
+
+C09.obligations = list(C09.obligations) + ["Proofs.AstShutdownEquiv::" + n for n in (
+    "ast_lsp_shutdown_equiv", "ast_lsp_exit_equiv", "ast_lsp_shutdown_model", "ast_lsp_exit_model",
+    "ast_shutdown_example")]
+C09.coq_targets = list(C09.coq_targets) + ["Proofs/AstShutdownEquiv.vo"]
+C09.trusted_base = list(C09.trusted_base) + [
+    "translator tie: harness/gen_ast.py + harness/gen_ast_shutdown.py (Python ast -> PyMini, fail-closed; the "
+    "normalisations of gen_ast_shutdown.py: @lsp_method(..) / unused *args dropped, the loop header "
+    "list(self._request_futures.values()) read as the state field holding that snapshot, sys.exit(e) recorded and "
+    "followed by the end of the run since it raises SystemExit, x.cancel() and fut.add_done_callback(lambda t: "
+    "sys.exit(rc)) recorded) and the PyMini semantics coq/Base/PyMini.v (for over a list, conditional expression, "
+    "`is None`, attribute assignment; calls on self.writer / future.cancel / sys.exit / asyncio.ensure_future are "
+    "recorded and return normally); inspect.isawaitable is an oracle of ast_lsp_exit_equiv"]
+_prev_regenerate_ast = getattr(C09, "regenerate", None)
+
+
+def _regenerate_ast(self, chk):
+    try:
+        if _prev_regenerate_ast is not None:
+            _prev_regenerate_ast(self, chk)
+    finally:
+        core.coq_make(["Props/C09.vo", "Extract/ExtractC09.vo"])     # the differential side first
+        with core._Lock("coq"):                                      # coq/Gen is shared
+            try:
+                _gen_ast_shutdown.gen_shutdown()
+            finally:
+                core._coq_make(["Proofs/AstShutdownEquiv.vo"])
+
+
+C09.regenerate = _regenerate_ast
